@@ -1,1 +1,611 @@
-//! C19: not implemented yet.
+//! C19 — NTS server answers are authenticated and carry valid fresh cookies.
+//!
+//! Engine E-IN over NTS request layouts + E-SEQ over key rotation histories, both against
+//! the real `Server::handle` / `KeySetProvider::rotate`.
+//!
+//! (A) layouts: version {4,5} x AEAD {256,512} x unique identifier {none, one, duplicated} x
+//!     k unknown fields in front {0,7,8 (+1,6 thorough)} x cookies {none, current, previous,
+//!     expired, foreign key, two current, current+expired} x placeholders (authenticated part,
+//!     encrypted part) with total <= 9 (quick: 11 representative pairs) x placeholder length
+//!     {cookie-4, cookie, cookie+4} x authenticator {valid, valid with 8-byte nonce, bad tag,
+//!     wrong key} x extra encrypted fields {none, identifier+unknown}; under an open and a
+//!     denying configuration, with a rotated and a fresh key set.
+//! (B) rotation histories: provider history h in {0,1,2}; every event word of length <= 6
+//!     (thorough 8) over {rotate, poll, poll with 2 placeholders}; the client model keeps the
+//!     cookies it was given (oldest first, like a real client) and re-keys when it has none.
+//!     A cookie minted r rotations ago is accepted iff r <= h ("history old keys are kept").
+//!
+//! Oracle (from the statement), evaluated with the independent walker of c16.rs:
+//!   * request whose authentication fails  => the answer is never a time answer; it is an
+//!     NTS-NAK, or a DENY if (and only if) the policy denies the client, or nothing;
+//!   * time answer to an authenticated request => exactly one authenticator that verifies
+//!     under the cookie's s2c key with everything before it as associated data;
+//!   * fresh cookies (cookie fields anywhere in the answer): count <= number of cookie +
+//!     placeholder fields of the request and <= 8; an injective assignment cookie -> request
+//!     field with body(cookie) <= body(field) exists; every cookie decodes under the
+//!     server's *current* key set to the session's (algorithm, s2c, c2s); every cookie is
+//!     fresh (differs from the request's cookie and from its siblings).
+use std::collections::VecDeque;
+
+use super::c16::{
+    AField, Answer, Au, AuthState, BIG_BUF, Built, Cfg, Ck, Findings, Fld, Handled, KeyEnv, Kind, Local, MockClock, Out,
+    Req, Session, Sync, T_AUTH, T_COOKIE, build, client_ip, key_env, kind_key, make_server, open_nts, run_handle, walk,
+};
+use super::common::{self, Ctx};
+use crate::keyset::{KeySet, KeySetProvider};
+use crate::{Cipher, Server};
+
+fn bump(loc: &mut Option<&mut Local>, k: &'static str) {
+    if let Some(l) = loc.as_deref_mut() {
+        l.inc(k);
+    }
+}
+
+/// Judge one answer. Returns (observation, fresh cookies of an authenticated time answer).
+fn judge_answer(
+    findings: &Findings,
+    loc: &mut Option<&mut Local>,
+    expected: AuthState,
+    policy_denies: bool,
+    server_keys: &KeySet,
+    req: &Req,
+    b: &Built,
+    handled: &Handled,
+    trace: &dyn Fn() -> String,
+) -> (String, Vec<Vec<u8>>) {
+    let size = b.bytes.len();
+    let raw = match &handled.out {
+        Out::Ignore => {
+            bump(loc, "ignored");
+            match expected {
+                AuthState::Valid => bump(loc, "valid_ignored"),
+                AuthState::Invalid => bump(loc, "invalid_ignored"),
+                _ => {}
+            }
+            return ("ignored".into(), vec![]);
+        }
+        Out::Respond(a) => a,
+    };
+    let ans = match walk(raw) {
+        Ok(a) => a,
+        Err(e) => {
+            findings.report("C19:answer-malformed", size, || format!("{e}: {}", common::hex(raw)), trace);
+            return (format!("malformed: {e}"), vec![]);
+        }
+    };
+    let kind = ans.kind();
+    bump(loc, kind_key(kind));
+    let sess = req.session();
+    let ctxt = || format!("request {} = {}; answer = {}", req.code(), common::hex(&b.bytes), common::hex(raw));
+    let mut fresh: Vec<Vec<u8>> = vec![];
+    let mut classes: Vec<&'static str> = vec![];
+    match expected {
+        AuthState::Invalid => {
+            match kind {
+                Kind::Time => {
+                    classes.push("C19:time-without-authentication");
+                    findings.report(
+                        "C19:time-without-authentication",
+                        size,
+                        || format!("a request whose NTS authentication fails was answered with time; {}", ctxt()),
+                        trace,
+                    );
+                }
+                Kind::Nak => {
+                    bump(loc, "invalid_nak");
+                    if policy_denies {
+                        // the statement allows NAK or DENY here; record which
+                        bump(loc, "invalid_nak_although_denied");
+                    }
+                }
+                Kind::Deny => {
+                    bump(loc, "invalid_deny");
+                    if !policy_denies {
+                        classes.push("C19:deny-without-policy");
+                        findings.report(
+                            "C19:deny-without-policy",
+                            size,
+                            || format!("authentication failure answered with DENY although the policy allows the client; {}", ctxt()),
+                            trace,
+                        );
+                    }
+                }
+                other => {
+                    classes.push("C19:unexpected-answer-kind");
+                    findings.report(
+                        "C19:unexpected-answer-kind",
+                        size,
+                        || format!("authentication failure answered with {other:?}; {}", ctxt()),
+                        trace,
+                    );
+                }
+            }
+        }
+        AuthState::Valid | AuthState::Ambiguous => {
+            if kind == Kind::Time {
+                if expected == AuthState::Valid {
+                    bump(loc, "valid_time");
+                }
+                match open_nts(&ans, sess.s2c().as_ref()) {
+                    Err(e) => {
+                        classes.push("C19:answer-not-authenticated");
+                        findings.report(
+                            "C19:answer-not-authenticated",
+                            size,
+                            || format!("time answer to an authenticated request cannot be authenticated with the s2c key ({e}); {}", ctxt()),
+                            trace,
+                        );
+                    }
+                    Ok(o) => {
+                        let mut cookies: Vec<Vec<u8>> = o.inner.iter().filter(|f| f.ty == T_COOKIE).map(|f| f.body.clone()).collect();
+                        let clear: Vec<Vec<u8>> = ans.fields.iter().filter(|f| f.ty == T_COOKIE).map(|f| f.body.clone()).collect();
+                        if !clear.is_empty() {
+                            bump(loc, "cookies_in_clear");
+                        }
+                        cookies.extend(clear);
+                        if let Some(l) = loc.as_deref_mut() {
+                            l.max("max_fresh_cookies", cookies.len() as u64);
+                            l.add("fresh_cookies", cookies.len() as u64);
+                            if cookies.len() == 8 {
+                                l.inc("answers_with_8_cookies");
+                            }
+                            if cookies.is_empty() {
+                                l.inc("authenticated_answers_without_cookie");
+                            }
+                        }
+                        let n_req = b.cookie_like.len();
+                        if cookies.len() > n_req || cookies.len() > 8 {
+                            classes.push("C19:too-many-cookies");
+                            findings.report(
+                                "C19:too-many-cookies",
+                                size,
+                                || format!("{} fresh cookies for {} cookie/placeholder fields (limit 8); {}", cookies.len(), n_req, ctxt()),
+                                trace,
+                            );
+                        }
+                        // injective assignment cookie -> request field with size(cookie) <= size(field)
+                        let mut have: Vec<usize> = b.cookie_like.clone();
+                        have.sort_unstable_by(|a, b| b.cmp(a));
+                        let mut want: Vec<usize> = cookies.iter().map(|c| c.len()).collect();
+                        want.sort_unstable_by(|a, b| b.cmp(a));
+                        if want.iter().zip(have.iter()).any(|(w, h)| w > h) {
+                            classes.push("C19:cookie-larger-than-field");
+                            findings.report(
+                                "C19:cookie-larger-than-field",
+                                size,
+                                || format!("fresh cookie sizes {want:?} do not fit the request's cookie/placeholder bodies {have:?}; {}", ctxt()),
+                                trace,
+                            );
+                        }
+                        for (i, c) in cookies.iter().enumerate() {
+                            match server_keys.decode_cookie(c) {
+                                Err(_) => {
+                                    classes.push("C19:cookie-invalid");
+                                    findings.report(
+                                        "C19:cookie-invalid",
+                                        size,
+                                        || format!("fresh cookie #{i} ({} bytes) does not decode under the server's current key set; {}", c.len(), ctxt()),
+                                        trace,
+                                    );
+                                }
+                                Ok(d) => {
+                                    if d.algorithm != sess.algorithm()
+                                        || d.s2c.key_bytes() != &sess.s2c_key()[..]
+                                        || d.c2s.key_bytes() != &sess.c2s_key()[..]
+                                    {
+                                        classes.push("C19:cookie-wrong-keys");
+                                        findings.report(
+                                            "C19:cookie-wrong-keys",
+                                            size,
+                                            || format!("fresh cookie #{i} decodes to other session keys than the request's cookie; {}", ctxt()),
+                                            trace,
+                                        );
+                                    }
+                                }
+                            }
+                            let stale = b.cookies.iter().any(|r| c.starts_with(r)) || cookies.iter().enumerate().any(|(j, o)| j != i && o == c);
+                            if stale {
+                                classes.push("C19:cookie-not-fresh");
+                                findings.report(
+                                    "C19:cookie-not-fresh",
+                                    size,
+                                    || format!("fresh cookie #{i} repeats the request's cookie or a sibling; {}", ctxt()),
+                                    trace,
+                                );
+                            }
+                        }
+                        fresh = cookies;
+                    }
+                }
+            } else if expected == AuthState::Valid {
+                match kind {
+                    Kind::Deny if policy_denies => bump(loc, "valid_denied"),
+                    other => {
+                        classes.push("C19:valid-request-rejected");
+                        findings.report(
+                            "C19:valid-request-rejected",
+                            size,
+                            || format!("correctly authenticated request answered with {other:?}; {}", ctxt()),
+                            trace,
+                        );
+                    }
+                }
+            }
+        }
+        AuthState::NoAuth => {
+            bump(loc, "plain_requests_answered");
+        }
+    }
+    (
+        format!(
+            "{kind:?} {} bytes fresh={} sizes={:?} classes={:?}",
+            raw.len(),
+            fresh.len(),
+            fresh.iter().map(|c| c.len()).collect::<Vec<_>>(),
+            classes
+        ),
+        fresh,
+    )
+}
+
+// ---- (A) layouts -------------------------------------------------------------------------
+
+#[derive(Clone, Debug)]
+struct Layout {
+    ver: u8,
+    alg512: bool,
+    uid: u8,
+    lead: u8,
+    cookies: Vec<Ck>,
+    pa: u8,
+    pe: u8,
+    ph_delta: i16,
+    au: Au,
+    extra_enc: bool,
+}
+
+impl Layout {
+    fn req(&self) -> Req {
+        let mut f = vec![];
+        for _ in 0..self.lead {
+            // 16-byte unknown fields: the RFC 7822 minimum
+            f.push(Fld::Unk(12));
+        }
+        for _ in 0..self.uid {
+            f.push(Fld::Uid(32));
+        }
+        for c in &self.cookies {
+            f.push(Fld::Cookie(*c, 0));
+        }
+        for _ in 0..self.pa {
+            f.push(Fld::Ph(self.ph_delta));
+        }
+        if self.ver == 5 {
+            f.push(Fld::Draft(true));
+        }
+        let mut enc = vec![];
+        if self.extra_enc {
+            enc.push(Fld::Uid(32));
+            enc.push(Fld::Unk(24));
+        }
+        for _ in 0..self.pe {
+            enc.push(Fld::Ph(self.ph_delta));
+        }
+        f.push(Fld::Auth(self.au, enc));
+        let mut r = Req::plain(self.ver, f);
+        r.alg512 = self.alg512;
+        r
+    }
+}
+
+fn layouts(thorough: bool) -> Vec<Layout> {
+    let pairs: Vec<(u8, u8)> = if thorough {
+        let mut v = vec![];
+        for a in 0..=9u8 {
+            for e in 0..=(9 - a) {
+                v.push((a, e));
+            }
+        }
+        v
+    } else {
+        vec![(0, 0), (1, 0), (0, 1), (3, 0), (2, 2), (7, 0), (0, 7), (8, 0), (9, 0), (0, 9), (4, 5)]
+    };
+    let leads: &[u8] = if thorough { &[0, 1, 6, 7, 8] } else { &[0, 7, 8] };
+    let cookie_sets: Vec<Vec<Ck>> = vec![
+        vec![],
+        vec![Ck::Cur],
+        vec![Ck::Prev],
+        vec![Ck::Expired],
+        vec![Ck::Foreign],
+        vec![Ck::Cur, Ck::Cur],
+        vec![Ck::Cur, Ck::Expired],
+    ];
+    let mut out = vec![];
+    for ver in [4u8, 5] {
+        for alg512 in [false, true] {
+            for uid in 0..3u8 {
+                for &lead in leads {
+                    for cookies in &cookie_sets {
+                        for &(pa, pe) in &pairs {
+                            for ph_delta in [-4i16, 0, 4] {
+                                if pa + pe == 0 && ph_delta != 0 {
+                                    continue;
+                                }
+                                for au in [Au::Ok, Au::N8, Au::BadTag, Au::WrongKey] {
+                                    for extra_enc in [false, true] {
+                                        out.push(Layout {
+                                            ver,
+                                            alg512,
+                                            uid,
+                                            lead,
+                                            cookies: cookies.clone(),
+                                            pa,
+                                            pe,
+                                            ph_delta,
+                                            au,
+                                            extra_enc,
+                                        });
+                                    }
+                                }
+                            }
+                        }
+                    }
+                }
+            }
+        }
+    }
+    out
+}
+
+fn judge_layout(
+    findings: &Findings,
+    mut loc: Option<&mut Local>,
+    cfg: Cfg,
+    keys: &KeyEnv,
+    server: &mut Server<MockClock>,
+    req: &Req,
+) -> String {
+    let b = build(req, keys);
+    let trace = || format!("layout;{};k{};{}", cfg.code(), keys.rotated as u8, req.code());
+    if let Some(l) = loc.as_deref_mut() {
+        l.inc("evaluations");
+        l.inc(match b.auth {
+            AuthState::Valid => "requests_valid",
+            AuthState::Invalid => "requests_invalid",
+            AuthState::Ambiguous => "requests_ambiguous",
+            AuthState::NoAuth => "requests_plain",
+        });
+    }
+    if b.bytes.len() > super::c16::MAX_DATAGRAM {
+        // the daemon could not receive this datagram, but `Server::handle` is a library
+        // entry point without a size limit: the bound of eight cookies can only be
+        // exceeded by such requests, so they are part of the space
+        if let Some(l) = loc.as_deref_mut() {
+            l.inc("requests_longer_than_1024");
+        }
+    }
+    let handled = match run_handle(server, client_ip(0), &b.bytes, BIG_BUF) {
+        Ok(h) => h,
+        Err(p) => {
+            findings.report("C19:panic", b.bytes.len(), || format!("Server::handle panicked: {p}"), trace);
+            return format!("panic {p}");
+        }
+    };
+    let (obs, _) = judge_answer(findings, &mut loc, b.auth, cfg.denies_client(), &keys.server, req, &b, &handled, &trace);
+    if obs != "ignored" {
+        if let Some(l) = loc.as_deref_mut() {
+            l.distinct(common::hash_of(&(cfg, keys.rotated, req)));
+        }
+    }
+    format!("{:?} -> {obs}", b.auth)
+}
+
+// ---- (B) rotation histories -----------------------------------------------------------------
+
+/// events: 0 = rotate, 1 = poll, 2 = poll with two placeholders
+fn run_history(findings: &Findings, mut loc: Option<&mut Local>, h: usize, ver: u8, alg512: bool, events: &[u8]) -> String {
+    let trace = || {
+        format!(
+            "seq;h{};v{};a{};{}",
+            h,
+            ver,
+            alg512 as u8,
+            events.iter().map(|e| ["R", "P", "Q"][*e as usize]).collect::<Vec<_>>().join(",")
+        )
+    };
+    let sess = Session {
+        alg512,
+    };
+    let mut provider = KeySetProvider::new(h);
+    let mut server = make_server(Cfg::Open, &Sync::TYPICAL, &provider.get());
+    let mut rot = 0u32;
+    let mut pool: VecDeque<(Vec<u8>, u32)> = VecDeque::new();
+    let mut obs = String::new();
+    for (step, e) in events.iter().enumerate() {
+        if *e == 0 {
+            provider.rotate();
+            server.update_keyset(provider.get());
+            rot += 1;
+            obs.push_str("R;");
+            continue;
+        }
+        if pool.is_empty() {
+            // key exchange: a cookie minted by the server's current key set
+            pool.push_back((provider.get().encode_cookie(&sess.decoded()), rot));
+            if let Some(l) = loc.as_deref_mut() {
+                l.inc("key_exchanges");
+            }
+        }
+        let (cookie, minted) = pool.pop_front().unwrap();
+        let expected = if (rot - minted) as usize <= h { AuthState::Valid } else { AuthState::Invalid };
+        let mut fields = vec![Fld::Uid(32), Fld::Cookie(Ck::Custom, 0)];
+        if *e == 2 {
+            fields.push(Fld::Ph(0));
+            fields.push(Fld::Ph(0));
+        }
+        if ver == 5 {
+            fields.push(Fld::Draft(true));
+        }
+        fields.push(Fld::Auth(Au::Ok, vec![]));
+        let mut req = Req::plain(ver, fields);
+        req.alg512 = alg512;
+        let mut keys = key_env(false);
+        keys.server = provider.get();
+        keys.custom = cookie;
+        let b = build(&req, &keys);
+        if let Some(l) = loc.as_deref_mut() {
+            l.inc("evaluations");
+            l.inc("transitions_seq");
+            l.inc(if expected == AuthState::Valid { "seq_polls_expected_valid" } else { "seq_polls_expected_invalid" });
+        }
+        let handled = match run_handle(&mut server, client_ip(0), &b.bytes, BIG_BUF) {
+            Ok(h) => h,
+            Err(p) => {
+                findings.report("C19:panic", events.len(), || format!("Server::handle panicked at step {step}: {p}"), trace);
+                return format!("{obs}panic");
+            }
+        };
+        let cur = provider.get();
+        let (o, fresh) = judge_answer(findings, &mut loc, expected, false, &cur, &req, &b, &handled, &trace);
+        obs.push_str(&format!("{}:{}->{};", if *e == 1 { "P" } else { "Q" }, rot - minted, o));
+        for c in fresh {
+            pool.push_back((c, rot));
+        }
+    }
+    obs
+}
+
+fn replay(ctx: &Ctx, trace: &str) -> String {
+    let findings = Findings::new();
+    let p: Vec<&str> = trace.split(';').collect();
+    let obs = if p.first() == Some(&"seq") && p.len() == 5 {
+        let h: usize = p[1].trim_start_matches('h').parse().unwrap_or(1);
+        let ver: u8 = p[2].trim_start_matches('v').parse().unwrap_or(4);
+        let alg512 = p[3] == "a1";
+        let events: Vec<u8> = p[4]
+            .split(',')
+            .filter(|s| !s.is_empty())
+            .map(|s| match s {
+                "R" => 0,
+                "P" => 1,
+                _ => 2,
+            })
+            .collect();
+        run_history(&findings, None, h, ver, alg512, &events)
+    } else if p.first() == Some(&"layout") && p.len() == 4 {
+        match (Cfg::parse(p[1]), Req::parse(p[3])) {
+            (Some(cfg), Some(req)) => {
+                let keys = key_env(p[2] == "k1");
+                let mut server = make_server(cfg, &Sync::TYPICAL, &keys.server);
+                judge_layout(&findings, None, cfg, &keys, &mut server, &req)
+            }
+            _ => format!("unparseable trace {trace:?}"),
+        }
+    } else {
+        format!("unparseable trace {trace:?}")
+    };
+    findings.flush(ctx);
+    obs
+}
+
+#[test]
+fn check() {
+    let ctx = Ctx::new("C19");
+    if let Some(t) = common::replay_trace() {
+        let a = replay(&ctx, &t);
+        let b = replay(&ctx, &t);
+        common::report_replay("C19", &a, &b, ctx.violation_count() > 0);
+        return;
+    }
+    let thorough = !ctx.quick();
+    ctx.rule(
+        "(A) NTS layouts: version {4,5} x AEAD {256,512} x identifier {0,1,2} x unknown fields in front {0,7,8 (+1,6 thorough)} x cookies \
+         {none, current, previous, expired, foreign, current+current, current+expired} x placeholders (authenticated, encrypted) from 11 pairs \
+         (thorough: all with total <=9) x placeholder length {-4,0,+4} x authenticator {valid, 8-byte nonce, bad tag, wrong key} x extra encrypted \
+         fields {no, yes}; environments {open, denylist} x key set {rotated twice, fresh}. (B) every event word of length <=6 (thorough 8) over \
+         {rotate, poll, poll+2 placeholders} x provider history {0,1,2} x version {4,5} x AEAD {256,512}, client re-using the cookies it was given. \
+         Distinct & non-trivial = an answered (environment, layout), or a complete history.",
+    );
+    ctx.assume("a request with several cookies in front of the authenticator, or several authenticators, may be either refused (NAK) or answered with an authenticated answer");
+    ctx.assume("'current keys' = the key set installed in the server at the time of the request; a cookie minted r rotations ago must be accepted iff r <= history (KeySetProvider documentation)");
+    ctx.assume("cookie and placeholder fields of the whole request (authenticated, encrypted and trailing part) count for the upper bound on fresh cookies");
+    let findings = Findings::new();
+    // (A)
+    let lay = layouts(thorough);
+    ctx.set("layouts", lay.len() as u64);
+    for (cfg, rotated) in [(Cfg::Open, true), (Cfg::DenyList, true), (Cfg::Open, false), (Cfg::DenyList, false)] {
+        let keys = key_env(rotated);
+        common::par_for_with(
+            lay.len() as u64,
+            32,
+            || (Local::new(&ctx), make_server(cfg, &Sync::TYPICAL, &keys.server)),
+            |(loc, server), i| {
+                let req = lay[i as usize].req();
+                judge_layout(&findings, Some(loc), cfg, &keys, server, &req);
+            },
+        );
+        if ctx.over_budget() {
+            ctx.cap_hit("budget reached inside part (A)");
+            break;
+        }
+    }
+    // (B)
+    let depth = if thorough { 8 } else { 6 };
+    let mut words: Vec<Vec<u8>> = vec![];
+    for len in 1..=depth {
+        for w in common::product(3, len) {
+            // only words that end in a poll are maximal observations; shorter prefixes are covered by them
+            if *w.last().unwrap() != 0 {
+                words.push(w.iter().map(|x| *x as u8).collect());
+            }
+        }
+    }
+    ctx.set("history_words", words.len() as u64);
+    let mut combos = vec![];
+    for h in 0..3usize {
+        for ver in [4u8, 5] {
+            for alg512 in [false, true] {
+                combos.push((h, ver, alg512));
+            }
+        }
+    }
+    if !ctx.over_budget() {
+        common::par_for_with(
+            (words.len() * combos.len()) as u64,
+            16,
+            || Local::new(&ctx),
+            |loc, i| {
+                let (h, ver, alg512) = combos[i as usize % combos.len()];
+                let w = &words[i as usize / combos.len()];
+                run_history(&findings, Some(loc), h, ver, alg512, w);
+                loc.inc("histories");
+                loc.distinct(common::hash_of(&(h, ver, alg512, w)));
+            },
+        );
+    } else {
+        ctx.cap_hit("part (B) not started");
+    }
+    // samples
+    {
+        let keys = key_env(true);
+        let mut server = make_server(Cfg::Open, &Sync::TYPICAL, &keys.server);
+        for code in [
+            "v4.m3.p6.l0.g0.a0|u32,cC0,p0,p0,Aok()|m0",
+            "v4.m3.p6.l0.g0.a0|u32,cP0,p-4,Aok(p0)|m0",
+            "v4.m3.p6.l0.g0.a0|u32,cE0,Aok()|m0",
+            "v4.m3.p6.l0.g0.a0|u32,cC0,Abad()|m0",
+            "v5.m3.p6.l0.g0.a1|u32,cC0,p0,p0,p0,p0,p0,p0,p0,p0,p0,d1,Aok()|m0",
+        ] {
+            let r = Req::parse(code).unwrap();
+            let f = Findings::new();
+            ctx.sample(format!("{code} -> {}", judge_layout(&f, None, Cfg::Open, &keys, &mut server, &r)));
+        }
+        let f = Findings::new();
+        ctx.sample(format!("history h=1 v4 R,P,R,Q,R,R,P -> {}", run_history(&f, None, 1, 4, false, &[0, 1, 0, 2, 0, 0, 1])));
+    }
+    findings.flush(&ctx);
+    ctx.set("transitions", ctx.get("evaluations"));
+    ctx.set("states", ctx.get("layouts") * 4 + ctx.get("histories"));
+    ctx.exhaustive(ctx.get("histories") > 0);
+    ctx.finish();
+}
